@@ -16,7 +16,7 @@
                             run of the generic engine on to_reqs evs that has signalled completion *)
 From stdpp Require Import list.
 From SX Require Import Base.Net Base.NetExec Proofs.PipelineOrder Proofs.PipelineWire Proofs.AppEngineScans.
-From SX Require Model.Pipeline Model.AppEngine.
+From SX Require Model.Pipeline Model.AppEngine Model.PipelineShape Model.AppEngineShape.
 From Coq Require Import ZArith.
 From SX Require Import Model.IPNet Model.Targets Model.TargetWiring Proofs.WiringProofs Proofs.WireCoverage
   Proofs.ScanCoverage Gen.GroupsTable Gen.TargetWiring Proofs.TargetsTable Properties.C01.
@@ -48,6 +48,11 @@ Theorem C01_runs_are_the_scan : forall cmd f inp,
   option_map (@concat event) (engine_runs cyclic_groups chunk_size empty_runs_once cmd f inp).
 Proof. intros. apply engine_runs_concat. Qed.
 
+(* the goroutine structure of both engines in the current sources is the one the two models were written
+   against (the pins of C07_shape and C08_shape; here because the theorems above speak about those models) *)
+Theorem C01_engine_shapes : PipelineShape.shape_ok = true /\ AppEngineShape.shape_ok = true.
+Proof. split; vm_compute; reflexivity. Qed.
+
 (* ---- non-vacuity: the concrete `sx tcp syn` specification of C01_ex_valid_spec, run through a
    2-worker pipeline under a round-robin schedule: a complete uncancelled run exists and hands
    exactly the two denoted probes to the wire ---- *)
@@ -76,6 +81,7 @@ Example C01_ex_denote : spec_denote KPortPacket ex_cfg ex_inp ([10;0;0;8], [255;
                         = [([10;0;0;8], 80); ([10;0;0;8], 81)]%Z.
 Proof. vm_compute. reflexivity. Qed.
 
+Print Assumptions C01_engine_shapes.
 Print Assumptions C01_on_the_wire.
 Print Assumptions C01_scanned.
 Print Assumptions C01_runs_are_the_scan.
